@@ -125,6 +125,7 @@ type tagPlan struct {
 	MaxRules int
 	Unknown  bool
 	Groups   bool
+	Decoys   bool // also tag keys of which a requested name is a suffix (xvalid before valid), with rules of their own
 	seq      *int
 }
 
@@ -146,6 +147,14 @@ func (p tagPlan) ruleTag(rng *rand.Rand, depth int, name string, ft reflect.Type
 					rules = g
 				} else {
 					rules += "," + g
+				}
+			}
+		}
+		if p.Decoys && !structish(ft) && rng.Intn(5) == 0 {
+			if dr := gen.RuleList(rng, ft, 2, "x"+id, gen.MsgUnique, false); dr != "" && drive.TagSafe(dr) {
+				parts = append(parts, "x"+tn+`:"`+dr+`"`)
+				if rng.Intn(3) == 0 {
+					continue // only the longer key: the requested name has no rules on this field
 				}
 			}
 		}
